@@ -193,25 +193,29 @@ template <class K> static void pending_case(Ctx &ctx) {
     else ctx.cls("pending:ascii-refused");
 }
 
-// index-width boundaries (255/256, 65535/65536 entities): the writer switches integer encodings there
+// index-width boundaries (255/256, 65535/65536 entities): the writer switches integer encodings there. The three counts
+// that determine handle widths (vertices, halfedges, halffaces) are chosen independently, so that e.g. few halfedges meet many halffaces.
 static void boundary_case(Ctx &ctx, bool big) {
     Rng &rng = ctx.rng;
     static const int sizes[] = {254, 255, 256, 257, 127, 128, 129, 65534, 65535, 65536, 65537, 32767, 32768, 32769};
-    int n = sizes[big ? 7 + rng.below(7) : rng.below(7)];
+    auto bval = [&] { return sizes[big ? 7 + rng.below(7) : rng.below(7)]; };
+    auto other = [&] { return rng.chance(1, 3) ? bval() : 3 + (int)rng.below(40); };
+    int n = bval();
+    int which = (int)rng.below(3);   // which count sits on the boundary for sure: vertices, halfedges, halffaces
+    int nv = which == 0 ? n : other(), ne = which == 1 ? (n + (int)rng.below(2)) / 2 : (other() + 1) / 2, nf = which == 2 ? (n + (int)rng.below(2)) / 2 : (other() + 1) / 2;
+    nv = std::max(nv, 2); ne = std::max(ne, 1);
     XMesh<PolyK> m;
-    // n vertices in a fan of triangles around vertex 0 -> about n edges/2n halfedges, n faces; one tet so that cells exist
-    for (int i = 0; i < n; ++i) m.add_vertex(Vec3d(i, i % 7, -i));
-    int which = (int)rng.below(3);   // which count sits on the boundary: vertices, halfedges, halffaces
-    int target_e = which == 1 ? n / 2 : std::min(n - 1, 300), target_f = which == 2 ? n / 2 : 50;
-    for (int i = 0; i + 1 < n && (int)m.n_edges() < target_e; ++i) m.add_edge(VertexHandle(i), VertexHandle(i + 1), true);
-    while ((int)m.n_edges() < target_e) m.add_edge(VertexHandle((int)rng.below(n)), VertexHandle((int)rng.below(n)), true);
-    // faces: 2-gons / triangles over existing edges (definitions need not be geometric)
-    for (int i = 0; (int)m.n_faces() < target_f && i + 2 < (int)m.n_edges(); ++i) {
-        auto e0 = m.edge(EdgeHandle(i)), e1 = m.edge(EdgeHandle(i + 1));
-        if (e0.to_vertex() != e1.from_vertex()) continue;
-        auto back = m.add_edge(e1.to_vertex(), e0.from_vertex(), true);
-        m.add_face(std::vector<HalfEdgeHandle>{HalfEdgeHandle(2 * i), HalfEdgeHandle(2 * i + 2), HalfEdgeHandle(2 * back.idx())});
-        if (which == 1 && (int)m.n_edges() >= n / 2 + 3) break;
+    for (int i = 0; i < nv; ++i) m.add_vertex(Vec3d(i, i % 7, -i));
+    // edges between arbitrary vertices (parallel edges allowed), the last one uses the last vertex
+    for (int i = 0; i < ne; ++i) { int a = i + 1 == ne ? nv - 1 : (int)rng.below(nv), b = (int)rng.below(nv); if (a == b) b = (a + 1) % nv; m.add_edge(VertexHandle(a), VertexHandle(b), true); }
+    // faces: 2-gons over an edge (closed loops), several per edge when there are more faces than edges; the last edge is used
+    for (int i = 0; i < nf; ++i) { int e = i + 1 == nf ? ne - 1 : (int)rng.below(ne); bool flip = rng.chance(1, 2); m.add_face(std::vector<HalfEdgeHandle>{HalfEdgeHandle(2 * e + flip), HalfEdgeHandle(2 * e + !flip)}); }
+    // a few cells over distinct halffaces, the last halfface among them
+    if (nf > 0) {
+        std::vector<int> hfs; for (int i = 0; i < 2 * nf; ++i) hfs.push_back(i);
+        std::swap(hfs[0], hfs[2 * nf - 1]); for (size_t i = hfs.size() - 1; i > 1; --i) std::swap(hfs[i], hfs[1 + rng.below(i)]);
+        int nc = 1 + (int)rng.below(4); size_t pos = 0;
+        for (int c = 0; c < nc && pos < hfs.size(); ++c) { size_t k = std::min<size_t>(hfs.size() - pos, 1 + rng.below(6)); std::vector<HalfFaceHandle> l; for (size_t i = 0; i < k; ++i) l.emplace_back(hfs[pos + i]); pos += k; m.add_cell(l, false); }
     }
     auto p = *m.create_persistent_property<int, ovm::Entity::HalfEdge>("he", -3); for (size_t i = 0; i < p.size(); i += 3) p[HalfEdgeHandle((int)i)] = (int)i;
     auto q = *m.create_persistent_property<bool, ovm::Entity::Vertex>("vb", false); for (size_t i = 0; i < q.size(); ++i) q[VertexHandle((int)i)] = (i * 7) % 3 == 0;
@@ -228,13 +232,57 @@ static void boundary_case(Ctx &ctx, bool big) {
     VF_CHECK(cm.diff(ct).empty(), "oracle:ovmb.roundtrip-differs", "boundary mesh (" << n << "): " << cm.diff(ct));
 }
 
+// valence boundaries: the per-chunk uniform valence is stored in one byte, variable valences switch width at 255/256
+static void valence_case(Ctx &ctx) {
+    Rng &rng = ctx.rng;
+    static const int vals[] = {254, 255, 256, 257, 300, 511, 512, 1000};
+    int V = vals[rng.below(8)], Vc = vals[rng.below(8)];
+    int mode = (int)rng.below(3);   // 0: faces of one huge valence; 1: cells of one huge valence; 2: mixed valences
+    XMesh<PolyK> m;
+    auto ring = [&](int n) {
+        int base = (int)m.n_vertices(); std::vector<HalfEdgeHandle> hes;
+        for (int i = 0; i < n; ++i) m.add_vertex(Vec3d(i * 0.5, (i % 13) - 6, base));   // printable-exact coordinates (the text format keeps ~6 digits)
+        for (int i = 0; i < n; ++i) hes.push_back(m.halfedge_handle(m.add_edge(VertexHandle(base + i), VertexHandle(base + (i + 1) % n)), 0));
+        m.add_face(hes);
+    };
+    auto fan = [&](int n, int ncells) {
+        int base = (int)m.n_vertices(); std::vector<HalfFaceHandle> side0, side1;
+        for (int i = 0; i < n + 2; ++i) m.add_vertex(Vec3d(i, base, i % 5));
+        for (int i = 1; i <= n; ++i) { auto f = m.add_face(std::vector<VertexHandle>{VertexHandle(base), VertexHandle(base + i), VertexHandle(base + i + 1)}); side0.push_back(m.halfface_handle(f, 0)); side1.push_back(m.halfface_handle(f, 1)); }
+        m.add_cell(side0, false); if (ncells > 1) m.add_cell(side1, false);
+    };
+    if (mode == 0) { int r = 1 + (int)rng.below(2); for (int i = 0; i < r; ++i) ring(V); }
+    else if (mode == 1) fan(Vc, 1 + (int)rng.below(2));
+    else { ring(V); fan(Vc, 2); fan(4, 1); ring(3); }
+    auto p = *m.create_persistent_property<int, ovm::Entity::HalfEdge>("he", -3); for (size_t i = 0; i < p.size(); i += 3) p[HalfEdgeHandle((int)i)] = (int)i;
+    Canon cm = extract_canon(m, false);
+    IO::WriteResult wr; std::string bytes = write_ovmb_bytes([&](std::ostream &os) { return IO::ovmb_write(os, m); }, wr);
+    ctx.op("valence mesh mode " + std::to_string(mode) + " face valence " + std::to_string(V) + " cell valence " + std::to_string(Vc) + " -> " + std::to_string(bytes.size()) + " bytes");
+    ctx.cnt.add("ovmb.valence-files"); ctx.cls("valence:" + std::to_string(mode) + ":" + std::to_string(mode == 1 ? Vc : V));
+    VF_CHECK(wr == IO::WriteResult::Ok, "oracle:ovmb.write-failed", "valence mesh");
+    Canon cr; std::string err; VF_CHECK(ref_to_canon(bytes, cr, err), "oracle:ovmb.writer-violates-format", "valence mesh (face valence " << V << ", cell valence " << Vc << ", mode " << mode << "): " << err);
+    cm.topo_type = cr.topo_type;
+    VF_CHECK(cm.diff(cr).empty(), "oracle:ovmb.writer-bytes-differ", "valence mesh (face valence " << V << ", cell valence " << Vc << ", mode " << mode << "): " << cm.diff(cr));
+    XMesh<PolyK> t; IO::ReadResult res; VF_CHECK(read_ovmb(bytes, t, false, false, &res), "oracle:ovmb.read-rejected", "valence mesh (face valence " << V << ", cell valence " << Vc << ", mode " << mode << "): " << IO::to_string(res));
+    Canon ct = extract_canon(t, false); ct.topo_type = cm.topo_type;
+    VF_CHECK(cm.diff(ct).empty(), "oracle:ovmb.roundtrip-differs", "valence mesh (face valence " << V << ", cell valence " << Vc << ", mode " << mode << "): " << cm.diff(ct));
+    // the text format has no valence limit
+    IO::FileManager fm; fm.setVerbosityLevel(0);
+    std::ostringstream os; fm.writeStream(os, m);
+    XMesh<PolyK> ta; std::istringstream is(os.str());
+    VF_CHECK(os.good() && fm.readStream(is, ta, false, false), "oracle:ascii.read-rejected", "valence mesh");
+    Canon ca = extract_canon(ta, true); Canon cma = extract_canon(m, true);
+    VF_CHECK(cma.diff(ca, false).empty(), "oracle:ascii.roundtrip-differs", "valence mesh: " << cma.diff(ca, false));
+}
+
 static CaseFn mk_c06(const Args &a) {
     bool thorough = a.tier == "thorough";
     int nvar = (int)a.num("variants", thorough ? 12 : 6);
     return [=](Ctx &ctx) {
         long long c = ctx.case_no; int k = (int)(c % 5); int what = (int)(c / 5 % 10);
         if (what == 9) { if (k == 3) pending_case<TetK>(ctx); else if (k == 4) pending_case<HexK>(ctx); else pending_case<PolyK>(ctx); return; }
-        if (what == 8 && k == 0) { boundary_case(ctx, thorough && (c / 50) % 2 == 0); return; }
+        if (what == 8 && (k == 0 || k == 2 || k == 3)) { boundary_case(ctx, thorough && (c / 50) % 4 == 0 && k == 0); return; }
+        if (what == 8 && k == 1) { valence_case(ctx); return; }
         if (what % 2 == 0) { if (k == 3) ovmb_case<TetK>(ctx, nvar); else if (k == 4) ovmb_case<HexK>(ctx, nvar); else ovmb_case<PolyK>(ctx, nvar); }
         else { if (k == 3) ascii_case<TetK>(ctx); else if (k == 4) ascii_case<HexK>(ctx); else ascii_case<PolyK>(ctx); }
     };
